@@ -51,6 +51,8 @@ type Gen struct {
 	seen   map[uint64]bool
 	stats  Stats
 	budget time.Time
+	// the previous case of a pure-helper property (see repeatIDs)
+	prevIn, prevObs []int64
 }
 
 type Stats struct {
@@ -89,15 +91,80 @@ func (g *Gen) Count(key string) { g.stats.Counters[key]++ }
 // Exhaustive marks a stream as a complete enumeration of its stated scope.
 func (g *Gen) Exhaustive(stream string) { g.stats.Exhaustive[stream] = true }
 
+// repeatIDs: properties about pure helpers (the observation is a function of the wire input
+// alone).  For these every case is executed again later — right after itself and after the
+// next case (A; A; B; A) — and a re-execution that answers differently is recorded as a case
+// of its own (stream "repeat"), which the judge then rejects: a helper that keeps hidden state
+// between calls (a memo of the last result handed out by reference, a reused buffer) shows up.
+var repeatIDs = map[string]bool{"C11": true, "C12": true, "C13": true, "C14": true, "C15": true}
+
+// aliasIDs: properties whose slice arguments are also passed as adjacent windows of one backing array
+// (util.go, aliasedMode); an answer that differs from the one on independent slices is recorded as a
+// case of stream "aliased".  Replay: VERIF_ALIASED=1 harness exec …
+var aliasIDs = map[string]bool{"C11": true, "C12": true, "C13": true, "C14": true}
+
+func sameInts(a, b []int64) bool {
+	if len(a) != len(b) {
+		return false
+	}
+	for i := range a {
+		if a[i] != b[i] {
+			return false
+		}
+	}
+	return true
+}
+
 // Case executes the implementation on the wire input and records the case.
 func (g *Gen) Case(stream string, nontrivial bool, in []int64) {
 	obs := g.P.Exec(in)
 	g.Raw(stream, nontrivial, in, obs)
+	if !repeatIDs[g.P.ID] || len(in) > 4096 {
+		return
+	}
+	if aliasIDs[g.P.ID] {
+		aliasedMode = true
+		resetArenas()
+		al := g.P.Exec(in)
+		aliasedMode = false
+		g.stats.Counters["aliased_executions"]++
+		if !sameInts(al, obs) {
+			g.stats.Counters["aliased_differs"]++
+			g.Raw("aliased", true, in, al)
+		}
+	}
+	g.stats.Counters["repeat_executions"]++
+	// the stream name carries the call sequence that produced the observation, so that a
+	// replay can reproduce it: "repeat|<input>|<input>|..." (the last one is the judged case)
+	seqName := func(ins ...[]int64) string {
+		var sb strings.Builder
+		sb.WriteString("repeat")
+		for _, x := range ins {
+			sb.WriteByte('|')
+			writeInts(&sb, x)
+		}
+		return sb.String()
+	}
+	if again := g.P.Exec(in); !sameInts(again, obs) {
+		g.stats.Counters["repeat_differs"]++
+		g.Raw(seqName(in, in), true, in, again)
+	}
+	if g.prevIn != nil {
+		if again := g.P.Exec(g.prevIn); !sameInts(again, g.prevObs) {
+			g.stats.Counters["repeat_differs"]++
+			g.Raw(seqName(g.prevIn, in, in, g.prevIn), true, g.prevIn, again)
+		}
+	}
+	g.prevIn, g.prevObs = append([]int64{}, in...), obs
 }
 
 // Raw records a case whose observables were produced by the caller.
 func (g *Gen) Raw(stream string, nontrivial bool, in, obs []int64) {
 	g.stats.Evaluations++
+	full := stream // may carry a call sequence after '|' (repeat cases); statistics use the bare name
+	if i := strings.IndexByte(stream, '|'); i >= 0 {
+		stream = stream[:i]
+	}
 	g.stats.PerStream[stream]++
 	h := fnv.New64a()
 	var sb strings.Builder
@@ -116,7 +183,7 @@ func (g *Gen) Raw(stream string, nontrivial bool, in, obs []int64) {
 	if nontrivial {
 		nt = "1"
 	}
-	g.out.WriteString(stream)
+	g.out.WriteString(full)
 	g.out.WriteByte('\t')
 	g.out.WriteString(nt)
 	g.out.WriteByte('\t')
@@ -174,6 +241,9 @@ func main() {
 		fmt.Fprintln(os.Stderr, "harness: unknown property", os.Args[2], "known:", ids)
 		os.Exit(2)
 	}
+	if os.Getenv("VERIF_ALIASED") == "1" {
+		aliasedMode = true
+	}
 	switch os.Args[1] {
 	case "exec":
 		if p.Exec == nil {
@@ -182,6 +252,19 @@ func main() {
 		}
 		var sb strings.Builder
 		writeInts(&sb, p.Exec(parseInts(os.Args[3])))
+		fmt.Println(sb.String())
+	case "execseq":
+		// harness execseq <ID> "<ints>" "<ints>" ... : the inputs are executed one after the other in
+		// this process; the observation of the last one is printed (replay of a "repeat" case)
+		if p.Exec == nil {
+			os.Exit(2)
+		}
+		var last []int64
+		for _, a := range os.Args[3:] {
+			last = p.Exec(parseInts(a))
+		}
+		var sb strings.Builder
+		writeInts(&sb, last)
 		fmt.Println(sb.String())
 	case "describe":
 		if p.Describe != nil {
